@@ -540,7 +540,7 @@ def play(props=None):
     for s, oc in paths:
         b = body_calls(s, 'playback_function')
         idle_ = z3.And(idle(s, selfv), s.seq(s.rd(selfv, '_playback_outputs')) == z3.Empty(SeqV))
-        obl.append(Obl('C09/%s/idle_after_play' % U, ('C09', 'C02', 'C01', 'C03'), s, idle_, oc))
+        obl.append(Obl('C09/%s/idle_after_play' % U, ('C09', 'C02', 'C01', 'C03', 'C08', 'C19'), s, idle_, oc))
         obl.append(Obl('C02/%s/no_cassette_events' % U, 'C02', s, no_cassette_events(s), oc))
         nofetch = any(t['kind'] == 'Iface' and t['name'] == 'get_recording' for t in s.trace)
         if nofetch:
